@@ -1,0 +1,86 @@
+//go:build verif
+
+package ssh
+
+import (
+	"io"
+	"math/big"
+	"sort"
+)
+
+// Hooks for the /verif harness, property C29 (key exchanges). Add-only; built only with -tags verif.
+
+// VerifPacketConn is the exported shape of a scripted packetConn.
+type VerifPacketConn interface {
+	WritePacket(p []byte) error
+	ReadPacket() ([]byte, error)
+}
+
+type verifPacketConn struct{ c VerifPacketConn }
+
+func (v verifPacketConn) writePacket(p []byte) error  { return v.c.WritePacket(p) }
+func (v verifPacketConn) readPacket() ([]byte, error) { return v.c.ReadPacket() }
+func (v verifPacketConn) Close() error                { return nil }
+
+// VerifKexResult mirrors kexResult.
+type VerifKexResult struct {
+	H, K, HostKey, Signature []byte
+	HashID                   uint // crypto.Hash
+}
+
+func verifResult(r *kexResult) *VerifKexResult {
+	if r == nil {
+		return nil
+	}
+	return &VerifKexResult{H: r.H, K: r.K, HostKey: r.HostKey, Signature: r.Signature, HashID: uint(r.Hash)}
+}
+
+// VerifKexNames lists the entries of kexAlgoMap.
+func VerifKexNames() []string {
+	var out []string
+	for k := range kexAlgoMap {
+		out = append(out, k)
+	}
+	sort.Strings(out)
+	return out
+}
+
+// VerifKexClient runs kexAlgoMap[name].Client over the scripted connection.
+func VerifKexClient(name string, c VerifPacketConn, rand io.Reader, vc, vs, ic, is []byte) (*VerifKexResult, error) {
+	m := &handshakeMagics{clientVersion: vc, serverVersion: vs, clientKexInit: ic, serverKexInit: is}
+	r, err := kexAlgoMap[name].Client(verifPacketConn{c}, rand, m)
+	if err != nil {
+		return nil, err
+	}
+	return verifResult(r), nil
+}
+
+// VerifKexServer runs kexAlgoMap[name].Server over the scripted connection; the host key is picked
+// from hostKeys by pickHostKey exactly as handshakeTransport.server does.
+func VerifKexServer(name string, c VerifPacketConn, rand io.Reader, vc, vs, ic, is []byte, hostKeys []Signer, algo string) (*VerifKexResult, error) {
+	m := &handshakeMagics{clientVersion: vc, serverVersion: vs, clientKexInit: ic, serverKexInit: is}
+	hk := pickHostKey(hostKeys, algo)
+	if hk == nil {
+		return nil, io.ErrUnexpectedEOF
+	}
+	r, err := kexAlgoMap[name].Server(verifPacketConn{c}, rand, m, hk, algo)
+	if err != nil {
+		return nil, err
+	}
+	return verifResult(r), nil
+}
+
+// VerifVerifyHostKeySignature is the client-side gate of handshakeTransport.client:
+// ParsePublicKey(result.HostKey) then verifyHostKeySignature.
+func VerifVerifyHostKeySignature(hostKeyBlob []byte, algo string, h, sig []byte) error {
+	hostKey, err := ParsePublicKey(hostKeyBlob)
+	if err != nil {
+		return err
+	}
+	return verifyHostKeySignature(hostKey, algo, &kexResult{H: h, Signature: sig, HostKey: hostKeyBlob})
+}
+
+// VerifChooseDH exposes chooseDH.
+func VerifChooseDH(min, pref, max uint32) (*big.Int, error) {
+	return chooseDH(kexDHGexRequestMsg{MinBits: min, PreferredBits: pref, MaxBits: max})
+}
